@@ -31,7 +31,7 @@ ASSUMPTIONS = [
     "transfer lengths above 2**17 blocks (1-byte blocks) resp. 16 MiB + one block are not explored (the library allocates blocksize*tl bytes)",
     "result names read: returned_lba, block_length, p_type, prot_en, p_i_exponent, lbppbe, lbpme, lbprz, lowest_aligned_lba, t10_vendor_identification, product_identification, product_revision_level, peripheral_device_type",
 ]
-REQUIRED_PROBES = ["readback_written", "lba_above_32bit", "ndob", "out_of_range_cc", "status", "shared_facade", "mmc_unit", "geometry16_ok", "via_init_device"]
+REQUIRED_PROBES = ["readback_written", "lba_above_32bit", "ndob", "out_of_range_cc", "status", "shared_facade", "mmc_unit", "geometry16_ok", "via_init_device", "vpd_pages_ok", "wwn_ok"]
 
 BS = [512, 512, 1, 1, 3, 520, 4096]
 CAPS = [64, 1 << 20, (1 << 32) + 1000, (1 << 40), (1 << 64) - 1]
@@ -106,7 +106,8 @@ def gen_op(rng, cfg, hot, counter):
     elif r < 0.93:
         op = {"op": rng.choice(["readcapacity10", "readcapacity16"])}
     else:
-        op = {"op": "inquiry"}
+        # identity: the standard data, the list of supported VPD pages, the device identification page (world wide names)
+        op = {"op": rng.choice(["inquiry", "inquiry", "vpd00", "vpd83"])}
     if op["op"].startswith(("read1", "write1", "writesame", "sync")) and "lba" in op:
         if rng.random() < 0.06:       # deliberately out of range
             limit = (1 << (64 if op["op"].endswith("16") else 32)) - 1
@@ -131,7 +132,7 @@ def gen_op(rng, cfg, hot, counter):
     return op
 
 
-MMC_OPS = ("read10", "read12", "write10", "write12", "inquiry")      # the block commands the library's MMC command set carries
+MMC_OPS = ("read10", "read12", "write10", "write12", "inquiry", "vpd00", "vpd83")      # the block commands the library's MMC command set carries
 
 
 def generate(rng, idx, tier):
@@ -150,8 +151,8 @@ def generate(rng, idx, tier):
     elif r < 0.2:
         # identity only: a logical unit of any of the 32 peripheral device types answers INQUIRY
         cfg.update(dev_type=rng.randrange(32))
-        allowed = ("inquiry",) if cfg["dev_type"] not in (0, 4, 7) else None
-    n = rng.choice([3, 4, 6, 8, 8, 12, 20, 40]) if allowed != ("inquiry",) else rng.choice([1, 2, 3])
+        allowed = ("inquiry", "vpd00", "vpd83") if cfg["dev_type"] not in (0, 4, 7) else None
+    n = rng.choice([3, 4, 6, 8, 8, 12, 20, 40]) if allowed is None or "read10" in allowed else rng.choice([1, 2, 3])
     faulty = rng.random() < 0.25
     hot = []
     ops = []
@@ -164,6 +165,9 @@ def generate(rng, idx, tier):
             op["fault"] = {"kind": "status", "byte": b}
             if b == 2:
                 op["fault"]["sense"] = S.fixed(rng.choice([2, 3, 4, 6, 0xB]), *rng.choice([(0x04, 0x01), (0x29, 0x00), (0x11, 0x00), (0x44, 0x00)])).hex()
+            if rng.random() < 0.2:
+                # the transport itself fails (ioctl error / connection lost): the command never reached the logical unit
+                op["fault"] = {"kind": "ioctl_error", "errno": rng.choice([5, 19, 104, 110])}
         ops.append(op)
     return {"property": ID, "config": {"lu": cfg, "faulty": faulty, "d_sense": rng.random() < 0.3, "shared_facade": rng.random() < 0.4,
                                        # how the application gets its device objects: the constructors, or init_device(path, read_write=True)
@@ -233,6 +237,10 @@ def call(scsi, op, bs):
         return getattr(scsi, name)(op["lba"], op["nb"], data, **kw)
     if name.startswith("synchronizecache"):
         return getattr(scsi, name)(op["lba"], op["n"], **fl)
+    if name == "vpd00":
+        return scsi.inquiry(evpd=1, page_code=0x00, alloclen=255)
+    if name == "vpd83":
+        return scsi.inquiry(evpd=1, page_code=0x83, alloclen=255)
     return getattr(scsi, name)()
 
 
@@ -245,10 +253,10 @@ def _outcome_repr(kind, val, name):
     if name.startswith("read1"):
         import hashlib
         return "ok:%d:%s" % (len(val.datain), hashlib.sha256(bytes(val.datain)).hexdigest()[:16])
-    if name.startswith("readcapacity") or name == "inquiry":
+    if name.startswith("readcapacity") or name in ("inquiry", "vpd00", "vpd83"):
         r = val.result
         keys = ("returned_lba", "block_length", "peripheral_device_type", "t10_vendor_identification", "product_revision_level",
-                "p_type", "prot_en", "p_i_exponent", "lbppbe", "lbpme", "lbprz", "lowest_aligned_lba")
+                "p_type", "prot_en", "p_i_exponent", "lbppbe", "lbpme", "lbprz", "lowest_aligned_lba", "page_code", "vpd_pages")
         return "ok:%r" % [(k, bytes(r[k]).hex() if isinstance(r.get(k), (bytes, bytearray)) else r.get(k)) for k in keys if k in r]
     return "ok"
 
@@ -262,6 +270,7 @@ def execute(prog):
     side = {}
     shared = None
     WORLD.flags["enforce_open_mode"] = True      # like the sg driver: no data-out command through a descriptor opened read-only
+    WORLD.flags["ua_on_relogin"] = True          # a conformant target: a new I_T nexus after an earlier one starts with a unit attention condition
 
     def attach_failed(t, e):
         V.append(dict(oracle="C12.unexpected-error", where="%s/attach" % t, detail=type(e).__name__,
@@ -322,14 +331,15 @@ def execute(prog):
             dl = WORLD.deliveries[mark:]
             where = "%s/%s" % (t, name)
             reprs[t] = _outcome_repr(kind, val, name)
-            faulted = bool(dl) and dl[0].get("fault") == "status"
+            faulted = bool(dl) and (dl[0].get("fault") == "status" or dl[0].get("oserror") is not None)
             if faulted:
                 # the target refused before executing: no effect in the model.  Which error surfaces is C07's business,
                 # but over both transports alike the caller must not be told the command was done
                 if kind == "ok":
-                    V.append(dict(oracle="C12.failed-command-looks-done", where=where, detail="status=%#04x" % dl[0]["status"],
-                                  expected="an error: the target completed %s with status %#04x and did nothing" % (name, dl[0]["status"]),
-                                  actual="returned normally"))
+                    what = ("status=%#04x" % dl[0]["status"]) if dl[0].get("status") is not None else "transport-error"
+                    V.append(dict(oracle="C12.failed-command-looks-done", where=where, detail=what,
+                                  expected="an error: %s was not executed (%s)" % (name, what),
+                                  actual="returned normally after %d command(s) on the wire" % len(dl)))
                 reprs[t] = "exc" if kind == "exc" else "ok"
                 WORLD.ev("op.end", i=i, transport=t, outcome=reprs[t])
                 continue
@@ -407,6 +417,28 @@ def execute(prog):
                                           actual="%s" % {k: got[k] for k in bad}))
                         else:
                             WORLD.probe("geometry16_ok")
+                elif name == "vpd00":
+                    r = val.result or {}
+                    want_pages = sorted(s["lu"].vpd_pages())
+                    if r.get("page_code") != 0 or sorted(r.get("vpd_pages") or []) != want_pages:
+                        V.append(dict(oracle="C12.identity", where=where, detail="supported-vpd-pages",
+                                      expected="page_code 0 and vpd_pages %s" % want_pages, actual="page_code %r, vpd_pages %r; keys %s" % (r.get("page_code"), r.get("vpd_pages"), sorted(r)[:6])))
+                    else:
+                        WORLD.probe("vpd_pages_ok")
+                elif name == "vpd83":
+                    r = val.result or {}
+                    lu = s["lu"]
+                    got = []
+                    for dd in r.get("designator_descriptors") or []:
+                        d_ = dd.get("designator") if isinstance(dd, dict) else None
+                        if isinstance(d_, dict) and d_.get("naa") in (5, 6):
+                            got.append((d_.get("naa"), d_.get("ieee_company_id"), d_.get("vendor_specific_identifier"), d_.get("vendor_specific_identifier_extension")))
+                    exp = [(6, lu.naa6[0], lu.naa6[1], lu.naa6[2]), (5, lu.naa5[0], lu.naa5[1], None)]
+                    if sorted(got, key=repr) != sorted(exp, key=repr):
+                        V.append(dict(oracle="C12.identity", where=where, detail="world-wide-names",
+                                      expected="NAA designators (naa, company, vendor specific, extension) %s" % (exp,), actual="%s" % (got,)))
+                    else:
+                        WORLD.probe("wwn_ok")
                 elif name == "inquiry":
                     r = val.result or {}
                     lu = s["lu"]
